@@ -83,18 +83,26 @@ static CO_ERR COTPdoEventWrite(struct CO_OBJ_T *obj, struct CO_NODE_T *node, voi
     /* identify the corresponding TPDO */
     num  = CO_GET_IDX(obj->Key);
     num &= 0x1FF;
+    if (num >= CO_TPDO_N) {
+        /* no TPDO of that number in this configuration: the value is stored only */
+        return (CO_ERR_NONE);
+    }
     pdo  = &node->TPdo[num];
 
     /* clear already running timer (event and inhibit) */
-    tmr = &pdo->Node->Tmr;
+    tmr = &node->Tmr;
     if (pdo->EvTmr >= 0) {
-        tid = COTmrDelete(tmr, pdo->EvTmr);
+        tid        = COTmrDelete(tmr, pdo->EvTmr);
+        pdo->EvTmr = -1;
         if (tid < 0) {
             return (CO_ERR_TYPE_WR);
         }
     }
     if (pdo->InTmr >= 0) {
-        tid = COTmrDelete(tmr, pdo->InTmr);
+        tid        = COTmrDelete(tmr, pdo->InTmr);
+        pdo->InTmr = -1;
+        /* the inhibit time is over: a trigger that is waiting for its end is sent below */
+        pdo->Flags &= ~CO_TPDO_FLG__I_;
         if (tid < 0) {
             return (CO_ERR_TYPE_WR);
         }
@@ -108,7 +116,11 @@ static CO_ERR COTPdoEventWrite(struct CO_OBJ_T *obj, struct CO_NODE_T *node, voi
         nmt = &node->Nmt;
         if (nmt->Mode == CO_OPERATIONAL) {
             pdo->Event = COTmrGetTicks(tmr, cycTime, CO_TMR_UNIT_1MS);
-            if (pdo->Event > 0) {
+            if ((pdo->Flags & CO_TPDO_FLG___E) != 0) {
+                /* pending trigger: transmit now (restarts event and inhibit time) */
+                pdo->Flags &= ~CO_TPDO_FLG___E;
+                COTPdoTx(pdo);
+            } else if (pdo->Event > 0) {
                 pdo->EvTmr = COTmrCreate(tmr,
                                         pdo->Event,
                                         0,
